@@ -96,8 +96,7 @@ theorem partial_scope_is_fresh (reg : Registry) (root : Json) (fuel : Nat) (d : 
                            indentString := rc.indentString, pbBinding := rc.pbBinding } out1
        | r => r) := by
   have hb : (d.name == PARTIAL_BLOCK) = false := beq_eq_false_iff_ne.mpr hnb
-  simp [expandPartial, hno, RM.bnd_apply, hcur, hb, h1, hp, hev]
-  simp only [bind, RM.bnd, RM.modify]
+  simp [expandPartial, hno, RM.bnd_apply, hcur, hb, h1, hp, hev, RM.withCleanup]
   split <;> simp_all
 
 /-- `{{> @partial-block}}` renders the block body of the enclosing inclusion; a second use finds the
